@@ -119,8 +119,9 @@ func c19(c *vc.Ctx) {
 	reduced := []int{0, c19DotGlob, c19NullGlob, c19GlobStar, c19NoCaseGlob, c19ExtGlob, c19NoGlob, c19DotGlob | c19NullGlob | c19GlobStar | c19NoCaseGlob | c19ExtGlob}
 	c.Rule = fmt.Sprintf("3 fixed trees %q (built per run in a scratch directory; \"x/\" directory, \"x -> y\" symlink) x all words of <=%d symbols over %q x all 64 subsets of %v, plus all words of exactly %d symbols x the 8 option sets {none, each single option, all five shopt options} (for words with extglob syntax extglob is added to each), plus for every word of <=%d symbols the absolute form \"$T\"/word (T = the tree) x those 8 sets. One evaluation = interpreter `<setup>; printf '%%s\\n' word` in the tree vs bash 5.2 `printf -v R '%%s\\n' word` (eval, same setup, same tree). Excluded and counted: words with extglob syntax while extglob is off (bash syntax error at parse time); words starting with '/' (they would glob the real root directory; the absolute form covers absolute paths). distinct = distinct (tree, result list)", c19Trees, fullLen, c19Alphabet, c19OptNames, maxLen, fullLen)
 	c.Assumptions = []string{
-		"bash 5.2.15 with LC_ALL=C.utf8 (code point collation; all names are ASCII) is the oracle; globskipdots is at its 5.2 default (on)",
+		"bash 5.2.15 with LC_ALL=C.utf8 (code point collation, identical to LC_ALL=C for the ASCII-only names used) is the oracle; globskipdots is at its 5.2 default (on)",
 		"the scratch trees live under os.TempDir on a case-sensitive file system",
+		"a failure is a known finding only if c19Classify accounts for the whole difference between the two lists (see c19_classes.go); the backslash family is confirmed by re-running the interpreter with the star in single quotes",
 	}
 	c.Reruns = 1
 	root, err := os.MkdirTemp("", "c19-")
@@ -139,9 +140,6 @@ func c19(c *vc.Ctx) {
 			enum.Seqs(c19Alphabet, maxLen, func(seq []string) {
 				w := strings.Join(seq, "")
 				if seenWord[w] {
-					return
-				}
-				if c19DevWords != nil && !c19DevWords[w] {
 					return
 				}
 				seenWord[w] = true
@@ -238,25 +236,6 @@ func c19(c *vc.Ctx) {
 	os.RemoveAll(root)
 	c.Finish(complete)
 }
-
-// DEV ONLY (removed before finishing)
-var c19DevWords = func() map[string]bool {
-	f := os.Getenv("C19_DEV_WORDS")
-	if f == "" {
-		return nil
-	}
-	b, err := os.ReadFile(f)
-	if err != nil {
-		panic(err)
-	}
-	m := map[string]bool{}
-	for _, l := range strings.Split(string(b), "\n") {
-		if l != "" {
-			m[l] = true
-		}
-	}
-	return m
-}()
 
 func c19Key(t c19Case) string {
 	return fmt.Sprintf("t%d %q opts=%s abs=%v", t.Tree, t.Word, c19OptString(t.Opts), t.Abs)
